@@ -110,6 +110,37 @@ if not jeq(J(h), J(twin)): return "final-state-differs-from-surviving-records"
     )
 
 
+def failing_special(leaf, timeout=40):
+    """two further failure modes: the quantity returns an int beyond the float range (OverflowError inside fill), and
+    a cached() quantity that raises (the cache must not remember the failing call)"""
+    body = f"""
+state = [0]
+def qf(d):
+    if d[4] == 1: raise ValueError("injected")
+    if d[4] == 2: return 10 ** 400
+    return d[0]
+with NT():
+    h = {LEAF[leaf].format(q="U.cached(qf)" )} if use_cache else {LEAF[leaf].format(q="qf")}
+    twin = {LEAF[leaf].format(q="(lambda d: d[0])")}
+    h._checkForCrossReferences(); twin._checkForCrossReferences()
+recs = [(x1, 0.0, 0.0, 0.0, 0), (x2, 0.0, 0.0, 0.0, m), (x2, 0.0, 0.0, 0.0, 0)]
+for r in recs:
+    before = J(h)
+    try:
+        h.fill(r)
+    except Exception:
+        if not jsame(J(h), before): return "failing-fill-changed-state"
+        continue
+    twin.fill(r)
+jh, jt = J(h)["data"], J(twin)["data"]
+jh = dict((k, v) for k, v in jh.items() if k != "name"); jt = dict((k, v) for k, v in jt.items() if k != "name")
+if not jeq(jh, jt): return "final-state-differs-from-surviving-records"
+"""
+    return Harness(f"C12/fail-special/{{}}".format(leaf), [("x1", "float"), ("x2", "float"), ("m", "int"), ("use_cache", "bool")],
+                   "1 <= m <= 2", body, timeout=timeout, setup=Q_SETUP, tree=LEAF[leaf].format(q="qf"),
+                   bounds="3 records: ok, failing (raise | huge int, by selector), then the same datum without failure; quantity plain or cached()")
+
+
 def failing_weighted(chain, timeout=60):
     """IEEE weights: a failing fill must leave the state bit-identical (an add-then-subtract rollback of a float counter
     does not); routing values are concrete, the weights of the successful and of the failing fill are symbolic Float64."""
@@ -139,6 +170,8 @@ if m != 0: return ""
 def harnesses(tier):
     out = []
     leaves = [l for l in LEAF if l != "Count"]
+    for l in ("Sum", "Average", "Deviate", "Minimize", "Maximize"):
+        out.append(failing_special(l))
     for c in CONT:
         out.append(failing_weighted([c, "Sum"]))
         out.append(failing_weighted([c, "Bin", "Sum"] if c != "Bin" else [c, "Select", "Sum"]))
